@@ -2,6 +2,7 @@ import KyupyVerif.Props.C01
 import KyupyVerif.Props.C02
 import KyupyVerif.Props.C08
 import KyupyVerif.Props.C04
+import KyupyVerif.Props.C03
 import KyupyVerif.Model.WaveCirc
 import KyupyVerif.Proofs.WaveStrip
 import KyupyVerif.Proofs.StripLinkLogic
@@ -19,7 +20,17 @@ What is theorem here:
   leave the same values in every output slot; from the soundness theorem of the map certificate, C08; the certificate is
   evaluated on the real tables of every instance) and the older abstract form `reuse_irrelevant` = `mem_refines`;
 * code paths of 2-valued propagation agree for every program (`paths_agree`);
-* delay data-set selection modes 0 and 1 (`select_mode0`, `select_mode1`).
+* delay data-set selection (audit finding 8): `WaveIO.selectDataset` models `_wave_eval` lines 165-176 per lane (modes 0 and 1 with
+  bounds; `none` = index out of range, empty table, mode ≥ 2 — outside), tied to the code by the driver command `wio-dataset`
+  (the index the real `_wave_eval` applies to `delays`, per lane, mixed modes, out-of-range values); `select_mode0/1`,
+  `select_in_bounds`; connected to the propagation through `cfgSel`: `dataset_lane` (lane `k` of a run with per-lane configurations =
+  lane `k` of the run with `cfg k` alone), `dataset_lane_select` (… = the run with the data set `selectDataset` gives for lane `k`),
+  `dataset_alone` (mode 0 on all lanes: the whole run is the run with data set `seed`; replaces the former eta-`rfl`);
+* WaveSim lanes (model `cpuCProp` of `Model/WaveIO.lean`, EVERY evaluator function): `cprop_lane_position` (lane `j` of `k` lanes =
+  lane `j'` of `k'` lanes when the two lanes start equal and are evaluated alike), `cprop_first_k` (`c_prop(sims=k)` = the first `k`
+  lanes of the full run), `cprop_lane_permutation`;
+* WaveSim memory reuse: `wave_reuse_irrelevant` (corollary of `C03.wave_memory_sound`: two accepted maps for the same rows and
+  capacities, any contract-honouring runs in any level-respecting orders, leave the same waveform in every output slot).
 * fork stripping of the timing simulator (WaveSim, `strip_forks`), in the waveform model `Wave.simWave`:
   - gate level `buf0_identity`: a buffer (LUT `BUF1`) whose operand line has zero delay copies a strictly
     increasing operand waveform exactly — entries, terminator (an overflow marker is passed on), activity
@@ -79,10 +90,15 @@ What is theorem here:
   - capture (`sd = 0`): `capture_paths_agree` (index loop = slice scan = `captureWv` of the waveform the region encodes, i.e. the
     model of C13), `c_to_s_paths_agree` (same rows, same records);
   - `simulate_paths_agree`: `s_to_c; c_prop; c_to_s` of `WaveSimCuda` = of `WaveSim` on all arrays.
-What is correspondence (harness/pathtie.py, clause `path-tie`): the models of BOTH paths of `s_to_c`, `s_ppo_to_ppi` and of the capture
-scan against the real `WaveSim` / `WaveSimCuda` (kernels under `MockCuda`, random block shapes): raw arrays equal cell by cell,
+What is correspondence (harness/pathtie.py, clause `path-tie`): the models of BOTH paths of `s_to_c`, `s_ppo_to_ppi`, of the capture
+scan and of the whole `c_to_s` (`cpuCToS` / `gpuCToS`, driver `wio-ctos`: captured records of every row and lane on random raw memory)
+against the real `WaveSim` / `WaveSimCuda` (kernels under `MockCuda`, random block shapes): raw arrays equal cell by cell,
 on random tables (incl. `c_locs = -1` rows), values off {0, 1}, random previous memory contents; the table hypotheses of
-the whole-array theorems are evaluated on the real tables and, where they hold, the two real arrays must be equal. The kernel
+the whole-array theorems (`regionsDisjointB`, `flagsOKB`, `transferRowsB`, `stateRowsCapturedB`, `capsPositiveB`) are evaluated BY THE
+DRIVER (`wio-hyp`) on the real tables and the real `s` and, where they hold, the two real arrays must be equal.
+NOT tied by a driver command: `cpuLevel`/`gpuLevel`/`cpuCProp`/`gpuCProp` on the raw arrays of a real propagation (the theorems about
+them hold for every evaluator function `ev`; their three ingredients are tied separately: `_wave_eval` in C03, the launch order in
+C07 `grid`, the accumulation `accAdd` in C13 `accum`). The kernel
 launch is tied in C07 (`grid`), `_wave_eval` in C03 (gate calls and whole runs of both classes), accumulation in C13.
 Not covered by a theorem: that the shared Python function `_wave_eval` is a function of the lane's memory with footprints inside
 the regions of its op (it is the parameter `ev` of the propagation theorems; its waveform-level model `Wave.waveEval` is tied by
@@ -100,8 +116,9 @@ Not covered by a theorem: memory-level execution of the stripped WaveSim (the st
 through `c_locs`; for LogicSim this step is proved: `strip_irrelevant_logic_mem`).
 What is oracle only (harness/c06.py): LogicSim fork stripping on the real code (the theorem `strip_irrelevant_logic` is about
 the model), whole CPU vs mock-GPU runs on the same simulator objects incl. a second assignment after a first one (kept as it was;
-the path theorems above are about the models), WaveSim lanes and `c_prop(sims=k)`, fork stripping with non-monotone stems (known
-finding D13). -/
+the path theorems above are about the models), WaveSim lanes / `c_prop(sims=k)` / data sets / reuse ON THE REAL CODE (the theorems
+`cprop_first_k`, `cprop_lane_permutation`, `dataset_lane_select`, `wave_reuse_irrelevant` are about the models), fork stripping with
+non-monotone stems (known finding D13). -/
 namespace KV.C06
 open KV KV.Sig KV.Wave
 
@@ -132,17 +149,29 @@ theorem paths_agree (ops : List Op) (hk : KnownProg ops) (env : Nat → Bool) (l
   obtain ⟨h1, h2, h3⟩ := C01.sim2_paths ops hk env l
   exact ⟨h1.trans h2.symm, h2.trans h3.symm⟩
 
-/-- delay data-set selection (wave_sim.py:165-176), modes 0 and 1 -/
-def selectDataset (nsets : Nat) (mode seed simctl0 : Nat) : Option Nat :=
-  if nsets > 1 then (if mode = 0 then some seed else if mode = 1 then some simctl0 else none) else some 0
+open KV.WaveIO (selectDataset)
 
-theorem select_mode0 (nsets seed s0 : Nat) (h : 1 < nsets) : selectDataset nsets 0 seed s0 = some seed := by
-  simp [selectDataset, h]
-theorem select_mode1 (nsets seed s0 : Nat) (h : 1 < nsets) : selectDataset nsets 1 seed s0 = some s0 := by
-  simp [selectDataset, h]
-/-- with the data set chosen, a run uses that data set's delays alone: same configuration ⇒ same waveforms -/
-theorem dataset_alone (delays : Nat → Nat → Bool → Bool → Int) (cap : Nat → Nat) (d : Nat) (ops : List Op) (env : Nat → Wv) :
-    simWave ⟨delays d, cap⟩ ops env = simWave ⟨fun l p q => delays d l p q, cap⟩ ops env := rfl
+theorem select_mode0 (nsets seed s0 : Nat) (h : 1 < nsets) (hs : seed < nsets) : selectDataset nsets 0 seed s0 = some seed := by
+  simp [selectDataset, hs]; omega
+theorem select_mode1 (nsets seed s0 : Nat) (h : 1 < nsets) (hs : s0 < nsets) : selectDataset nsets 1 seed s0 = some s0 := by
+  simp [selectDataset, hs]; omega
+/-- a selected index is in bounds -/
+theorem select_in_bounds (nsets mode seed s0 d : Nat) (h : selectDataset nsets mode seed s0 = some d) : d < nsets := by
+  unfold selectDataset at h
+  split at h
+  · cases h
+  · split at h
+    · cases h; omega
+    · split at h
+      · split at h
+        · cases h; assumption
+        · cases h
+      · split at h
+        · split at h
+          · cases h; assumption
+          · cases h
+        · cases h
+example : selectDataset 3 0 17 0 = none ∧ selectDataset 3 2 1 1 = none ∧ selectDataset 3 1 17 2 = some 2 ∧ selectDataset 1 1 17 9 = some 0 := by decide
 
 /-- memory reuse: under a liveness-separation certificate the memory-level result at every live signal is the
     signal-level result — which does not depend on the map (see `C08.mem_refines`) -/
@@ -936,6 +965,101 @@ theorem c_prop_paths_agree (ev : Ev) (ops : List AOp) (levels : List (Nat × Nat
     gpuCProp ev ops levels sims bx by_ S = cpuCProp ev ops levels sims S ∧
     ∀ k, sims ≤ k → cpuCProp ev ops levels sims S k = S k :=
   ⟨gpuCProp_eq_cpuCProp ev ops levels sims bx by_ hbx hby S, fun k hk => cpuCProp_lane_ge ev ops levels sims S k hk⟩
+
+/-! ### lanes, `c_prop(sims=k)` and data sets of WaveSim (audit finding 8) -/
+
+/-- **lane position**: lane `j` of a propagation over `k` lanes and lane `j'` of a propagation over `k'` lanes (same rows and
+    levels) agree when the two lanes start from the same memory and the evaluator treats them alike — whatever the other lanes
+    hold, wherever the lane sits, however many lanes there are -/
+theorem cprop_lane_position (ev ev' : Ev) (ops : List AOp) (levels : List (Nat × Nat)) (k k' j j' : Nat) (hj : j < k) (hj' : j' < k')
+    (hev : ∀ o c, ev o j c = ev' o j' c) (S S' : Nat → LaneSt) (h : S j = S' j') :
+    cpuCProp ev ops levels k S j = cpuCProp ev' ops levels k' S' j' := by
+  unfold cpuCProp
+  induction levels generalizing S S' with
+  | nil => exact h
+  | cons lv r ih =>
+    simp only [List.foldl_cons]
+    apply ih
+    rw [cpuLevel_lane, cpuLevel_lane, if_pos hj, if_pos hj', h]
+    generalize S' j' = st
+    induction (List.range (lv.2 - lv.1)) generalizing st with
+    | nil => rfl
+    | cons y ys ihy =>
+      simp only [List.foldl_cons]
+      have : evalWork ev ops lv.1 j y st = evalWork ev' ops lv.1 j' y st := by
+        simp only [evalWork, cpuBody, hev]
+      rw [this]
+      exact ihy _
+
+/-- **`c_prop(sims=k)` = the first `k` lanes of the full run** (auditor's `cprop_first_k`): lane `j < k` of `c_prop(sims=k)`
+    equals lane `j` of `c_prop(sims=k')` for every `k' > j`, and depends only on lane `j` of the state -/
+theorem cprop_first_k (ev : Ev) (ops : List AOp) (levels : List (Nat × Nat)) (k k' j : Nat) (hj : j < k) (hj' : j < k')
+    (S S' : Nat → LaneSt) (h : S j = S' j) :
+    cpuCProp ev ops levels k S j = cpuCProp ev ops levels k' S' j :=
+  cprop_lane_position ev ev ops levels k k' j j hj hj' (fun _ _ => rfl) S S' h
+
+/-- **lane permutation** (WaveSim, an evaluator that does not look at the lane number — `evWave` with one configuration for
+    all lanes): running on a state whose lanes are rearranged by `π` rearranges the results by `π` -/
+theorem cprop_lane_permutation (ev : Ev) (hev : ∀ o x x' c, ev o x c = ev o x' c) (ops : List AOp) (levels : List (Nat × Nat))
+    (sims : Nat) (π : Nat → Nat) (hπ : ∀ j, j < sims → π j < sims) (S : Nat → LaneSt) (j : Nat) (hj : j < sims) :
+    cpuCProp ev ops levels sims (fun x => S (π x)) j = cpuCProp ev ops levels sims S (π j) :=
+  cprop_lane_position ev ev ops levels sims sims j (π j) hj (hπ j hj) (fun o c => hev o j (π j) c) _ S rfl
+
+/-- **data set per lane** (auditor's `dataset_lane`): lane `k` of a propagation in which every lane has its own configuration
+    (`cfg sim` = delays of the data set selected for lane `sim`) = lane `k` of a propagation with that configuration on all lanes -/
+theorem dataset_lane (cfg : Nat → WCfg) (loc : Nat → Int) (ops : List AOp) (levels : List (Nat × Nat)) (sims k : Nat)
+    (S : Nat → LaneSt) :
+    cpuCProp (evWave cfg loc) ops levels sims S k = cpuCProp (evWave (fun _ => cfg k) loc) ops levels sims S k := by
+  by_cases hk : k < sims
+  · exact cprop_lane_position (evWave cfg loc) (evWave (fun _ => cfg k) loc) ops levels sims sims k k hk hk (fun _ _ => rfl) S S rfl
+  · rw [(c_prop_paths_agree _ ops levels sims 1 1 (by decide) (by decide) S).2 k (by omega),
+      (c_prop_paths_agree _ ops levels sims 1 1 (by decide) (by decide) S).2 k (by omega)]
+
+/-- the per-lane configuration `_wave_eval` uses: data set `selectDataset …` of lane `sim` (index 0 where the selection is
+    outside the model) -/
+def cfgSel (sets : Nat → WCfg) (nsets : Nat) (mode simctl0 : Nat → Nat) (seed : Nat) : Nat → WCfg :=
+  fun sim => sets ((selectDataset nsets (mode sim) seed (simctl0 sim)).getD 0)
+
+/-- **selection connected to the propagation**: with per-lane modes and choices (mixed modes allowed), lane `k` of the
+    propagation equals lane `k` of the propagation that uses the data set `d` selected for lane `k` ALONE on all lanes -/
+theorem dataset_lane_select (sets : Nat → WCfg) (nsets : Nat) (mode simctl0 : Nat → Nat) (seed : Nat) (loc : Nat → Int)
+    (ops : List AOp) (levels : List (Nat × Nat)) (sims k d : Nat) (S : Nat → LaneSt)
+    (hsel : selectDataset nsets (mode k) seed (simctl0 k) = some d) :
+    cpuCProp (evWave (cfgSel sets nsets mode simctl0 seed) loc) ops levels sims S k =
+      cpuCProp (evWave (fun _ => sets d) loc) ops levels sims S k := by
+  rw [dataset_lane]
+  simp only [cfgSel, hsel, Option.getD_some]
+
+/-- mode 0 on all lanes: the whole run IS the run with data set `seed` alone (replaces the former eta-`rfl` statement) -/
+theorem dataset_alone (sets : Nat → WCfg) (nsets seed : Nat) (h1 : 1 < nsets) (hs : seed < nsets) (simctl0 : Nat → Nat)
+    (loc : Nat → Int) (ops : List AOp) (levels : List (Nat × Nat)) (sims : Nat) (S : Nat → LaneSt) :
+    cpuCProp (evWave (cfgSel sets nsets (fun _ => 0) simctl0 seed) loc) ops levels sims S =
+      cpuCProp (evWave (fun _ => sets seed) loc) ops levels sims S := by
+  have : cfgSel sets nsets (fun _ => 0) simctl0 seed = fun _ => sets seed := by
+    funext sim; simp only [cfgSel, select_mode0 nsets seed _ h1 hs, Option.getD_some]
+  rw [this]
+
+/-- **memory reuse of WaveSim** (corollary of `C03.wave_memory_sound`): two accepted map records for the same netlist, `strip_forks`
+    setting, rows and capacities (`c_reuse` off and on, or any two allocators), ANY two runs honouring the evaluator contract in
+    ANY level-respecting orders: the region of every output slot reads as the same waveform — the results at the output slots do
+    not depend on `c_reuse` -/
+theorem wave_reuse_irrelevant (p1 p2 : MapIn) (hnet : p1.net = p2.net) (hstrip : p1.strip = p2.strip) (hops : p1.ops = p2.ops)
+    (hcaps : p1.caps = p2.caps) (h1 : p1.check = none) (h2 : p2.check = none) (delay : Nat → Bool → Bool → Int)
+    (sched1 sched2 : List Nat) (hs1 : p1.schedOKB sched1 = true) (hs2 : p2.schedOKB sched2 = true)
+    (m1 m1' m2 m2' : Int → T) (env0 : Nat → Wv)
+    (h01 : ∀ x ∈ p1.tracked, (∀ o ∈ p1.ops, o.out ≠ x) → rdWave (p1.loc x) (p1.cap x) m1 = env0 x)
+    (h02 : ∀ x ∈ p2.tracked, (∀ o ∈ p2.ops, o.out ≠ x) → rdWave (p2.loc x) (p2.cap x) m2 = env0 x)
+    (hr1 : WaveRun p1 (wcfg p1 delay) (MapSound.schedOps p1 sched1) m1 m1')
+    (hr2 : WaveRun p2 (wcfg p2 delay) (MapSound.schedOps p2 sched2) m2 m2') :
+    ∀ j s, (j, s) ∈ p1.ppoSrcs → rdWave (p1.loc j) (p1.cap j) m1' = rdWave (p2.loc j) (p2.cap j) m2' := by
+  obtain ⟨net1, strip1, ops1, st1, l1, c1, n1, cm1⟩ := p1
+  obtain ⟨net2, strip2, ops2, st2, l2, c2, n2, cm2⟩ := p2
+  simp only at hnet hstrip hops hcaps
+  subst hnet hstrip hops hcaps
+  intro j s hjs
+  rw [C03.wave_memory_sound _ h1 delay sched1 hs1 m1 m1' env0 h01 hr1 j s hjs,
+      C03.wave_memory_sound _ h2 delay sched2 hs2 m2 m2' env0 h02 hr2 j s hjs]
+  rfl
 
 /-! non-vacuity with the evaluator built from the waveform model (`evWave`): `10 = AND(0, 1)`, `11 = XOR(1, 2)` (level 1),
 `12 = OR(10, 11)` (level 2); signal `i` lives at address `8 i` with capacity 8, slot 9 is the constant 0; activity of 10 and 12
